@@ -737,16 +737,16 @@ def run_library_scenarios(R, tp, rng, n):
     """oracle only: the drivers' own multi-call entry points (LogixDriver.open with its identity /
     name queries, the list_identity classmethod, get_plc_time / set_plc_time, with-statement)"""
     import target as T
-    from pycomm3 import CIPDriver, LogixDriver
+    from pycomm3 import CIPDriver, LogixDriver, SLCDriver
     for i in range(n):
-        pname, pol = POLICIES[(i // 3) % len(POLICIES)]
+        pname, pol = POLICIES[(i // 4) % len(POLICIES)]
         handle, cid = rng.randrange(1, 2 ** 32), rng.randrange(0, 2 ** 32)
         tp.reset()
         micro = rng.random() < 0.25
         tp.cfg(**dict(pol, session_handle=handle, conn_id=cid, plc_name=b"C11", **({"product_name": b"2080-LC50-24QWB"} if micro else {})))
         case = {"library_scenario": i, "policy": pname, "session_handle": handle, "conn_id": cid, "micro800": micro}
-        kind = i % 3
-        R.count("lib_scenario", ["LogixDriver", "list_identity-classmethod", "with-CIPDriver"][kind] + ":" + pname)
+        kind = i % 4
+        R.count("lib_scenario", ["LogixDriver", "list_identity-classmethod", "with-CIPDriver", "SLCDriver"][kind] + ":" + pname)
         try:
             if kind == 0:
                 drv = T.open_driver(LogixDriver, "192.168.1.10", tp, open=False, init_tags=False, init_program_tags=False)
@@ -768,6 +768,19 @@ def run_library_scenarios(R, tp, rng, n):
                         CIPDriver.list_identity("192.168.1.10")
                     except Exception:  # noqa: BLE001
                         pass
+            elif kind == 3:
+                drv = SLCDriver("192.168.1.10")
+                fs = T.attach(drv, tp)
+                try:
+                    drv.open()
+                    drv.read("N7:0", "B3:1/2")           # the core target has no PCCC object: error replies, frames still count
+                    drv.write(("N7:1", rng.randrange(0, 100)))
+                except Exception:  # noqa: BLE001
+                    pass
+                try:
+                    drv.close()
+                except Exception:  # noqa: BLE001
+                    pass
             else:
                 drv = CIPDriver("192.168.1.10/bp/2")
                 fs = T.attach(drv, tp)
@@ -853,7 +866,7 @@ def run(R, escalate=False):
               "Generic* subclasses; histories: real CIPDriver calls (open / connected / UCMM / unconnected-send / list identity / "
               "get_module_info / close / re-open / calls while closed) against the reference target under the four policies with random "
               "session handles, connection ids, routes and payload sizes around the connection size; library scenarios (LogixDriver open, "
-              "list_identity classmethod, with-statement). non-trivial = distinct canonical case")
+              "list_identity classmethod, with-statement, SLCDriver read/write). non-trivial = distinct canonical case")
     mp = fw.ModelProc("C11")
     tp = T.TargetProc("targetcore")
     try:
@@ -872,7 +885,7 @@ def run(R, escalate=False):
         run_layout(R, mp, rng, 4000 if thorough else 500)
         run_subclasses(R, mp, rng, 3000 if thorough else 300)
         run_histories(R, mp, tp, rng, 2500 if thorough else 130, long=thorough)
-        run_library_scenarios(R, tp, rng, 300 if thorough else 24)
+        run_library_scenarios(R, tp, rng, 320 if thorough else 32)
     finally:
         mp.close()
         tp.close()
